@@ -11,11 +11,12 @@
    Environment actions happen only when the loop is idle (the harness settles after every operation); Snap is the
    harness's state record.  Every action emits the records the harness logs for it. *)
 EXTENDS Mon_ModeServers
-CONSTANTS World,      \* [specs, good, bare, opt_host, opt_port, root, slow, fp6, nov6, nonlit]
+CONSTANTS World,      \* [specs, good, goods, bare, opt_host, opt_port, root, slow, fp6, nov6, nonlit]
           Configs,    \* values the environment gives to the mode option (sequences of spec ids)
           ExtAddrs,   \* addresses another process may hold: [tp, host, port]
           Alone,      \* specs the environment instantiates directly (ServerInstance.make)
           Started,    \* TRUE: behaviours begin after the running hook
+          Ops,        \* names of the environment actions of this instance
           MaxOps, MaxGen
 VARIABLES optmode, optserver, psrun, order, objs, open, ext, nsid, eph, tasks, released, alone, dirty, nops, mon, obs
 vars == <<optmode, optserver, psrun, order, objs, open, ext, nsid, eph, tasks, released, alone, dirty, nops, mon, obs>>
@@ -31,7 +32,8 @@ SchemePort(s) == IF s = "http" THEN 80 ELSE IF s \in {"https", "quic", "http3"} 
 ServerSpec(d, dflt) ==
   LET form == IF Len(d) = 1 /\ d[1].t = "w" /\ d[1].s \in World.bare THEN "h"
               ELSE IF Len(d) = 3 /\ d[1].t = "w" /\ d[1].s \in World.bare /\ d[2].t = "c" /\ d[3].t = "n" THEN "hp"
-              ELSE IF Len(d) = 3 /\ d[1].t = "w" /\ d[2].t = "c" /\ d[3].t = "w" /\ d[3].s \in ToSet(World.good) THEN "sh"
+              ELSE IF Len(d) = 3 /\ d[1].t = "w" /\ d[2].t = "c" /\ d[3].t = "w"
+                      /\ d[3].s \in ToSet(World.good) \cup ToSet(World.goods) THEN "sh"
               ELSE IF Len(d) = 5 /\ d[1].t = "w" /\ d[2].t = "c" /\ d[3].t = "w" /\ d[3].s \in ToSet(World.good)
                       /\ d[4].t = "c" /\ d[5].t = "n" THEN "shp"
               ELSE "bad"
@@ -86,7 +88,7 @@ SpecEv(i) == LET p == P[i] IN
   [k |-> "spec", id |-> i, toks |-> World.specs[i].toks, via |-> World.specs[i].via, res |-> p.res, type |-> p.type,
    full |-> p.full, data |-> p.data, hashost |-> p.hashost, chost |-> p.chost, cport |-> p.cport, lh0 |-> p.lh0,
    lh1 |-> p.lh1, lp0 |-> p.lp0, lp1 |-> p.lp1, tp |-> p.tp, lhost |-> p.lhost, lport |-> p.lport]
-WorldEv == [k |-> "world", good |-> World.good, opt_host |-> World.opt_host, opt_port |-> World.opt_port,
+WorldEv == [k |-> "world", good |-> World.good, goods |-> World.goods, opt_host |-> World.opt_host, opt_port |-> World.opt_port,
             root |-> World.root, nspecs |-> Len(World.specs)]
 
 \* ------------------------------------------------------------------------------------------- the fake OS
@@ -266,7 +268,7 @@ Snap ==
 \* options.update(mode=...) -> Proxyserver.configure: parse all, refuse duplicates, schedule an update when running;
 \* a refusal rolls the option back, which runs configure again with the old value
 SetMode(c) ==
-  /\ Env
+  /\ Env /\ "SetMode" \in Ops
   /\ LET valid == \A i \in 1..Len(c) : P[c[i]].res = "ok"
          dup == valid /\ \E a, b \in 1..Len(c) : /\ a < b /\ P[c[a]].lhost = P[c[b]].lhost /\ P[c[a]].lport = P[c[b]].lport
                                                  /\ Protos(P[c[a]].tp) \cap Protos(P[c[b]].tp) # {}
@@ -278,26 +280,26 @@ SetMode(c) ==
   /\ dirty' = TRUE /\ nops' = nops + 1
   /\ UNCHANGED <<optserver, psrun, order, objs, open, ext, nsid, eph, released, alone>>
 SetServer(b) ==
-  /\ Env /\ b # optserver
+  /\ Env /\ "SetServer" \in Ops /\ b # optserver
   /\ optserver' = b
   /\ tasks' = IF psrun THEN Append(tasks, NewTask(optmode)) ELSE tasks
   /\ Emit(OpRet([k |-> "op", op |-> "set_server", on |-> b], ""))
   /\ dirty' = TRUE /\ nops' = nops + 1
   /\ UNCHANGED <<optmode, psrun, order, objs, open, ext, nsid, eph, released, alone>>
 Running ==
-  /\ Env /\ ~psrun
+  /\ Env /\ "Running" \in Ops /\ ~psrun
   /\ psrun' = TRUE
   /\ Emit(OpRet([k |-> "op", op |-> "running"], ""))
   /\ dirty' = TRUE /\ nops' = nops + 1
   /\ UNCHANGED <<optmode, optserver, order, objs, open, ext, nsid, eph, tasks, released, alone>>
 Setup ==
-  /\ Env
+  /\ Env /\ "Setup" \in Ops
   /\ tasks' = Append(tasks, NewTask(optmode))
   /\ Emit(OpRet([k |-> "op", op |-> "setup"], ""))
   /\ dirty' = TRUE /\ nops' = nops + 1
   /\ UNCHANGED <<optmode, optserver, psrun, order, objs, open, ext, nsid, eph, released, alone>>
 Release(s) ==
-  /\ Env /\ tasks # <<>>
+  /\ Env /\ "Release" \in Ops /\ tasks # <<>>
   /\ \E g \in tasks[1].pend : objs[g].spec = s
   /\ LET g == MinOf({x \in tasks[1].pend : objs[x].spec = s}) IN
      /\ released' = released \cup {g}
@@ -305,27 +307,27 @@ Release(s) ==
   /\ dirty' = TRUE /\ nops' = nops + 1
   /\ UNCHANGED <<optmode, optserver, psrun, order, objs, open, ext, nsid, eph, tasks, alone>>
 ExtBind(e) ==
-  /\ Env /\ e \notin ext /\ Holder(St, e.tp, e.host, e.port) = 0
+  /\ Env /\ "ExtBind" \in Ops /\ e \notin ext /\ Holder(St, e.tp, e.host, e.port) = 0
   /\ ext' = ext \cup {e}
   /\ Emit(<<[k |-> "ext_bind", tp |-> e.tp, host |-> e.host, port |-> e.port, auto |-> FALSE]>>)
   /\ dirty' = TRUE /\ nops' = nops + 1
   /\ UNCHANGED <<optmode, optserver, psrun, order, objs, open, nsid, eph, tasks, released, alone>>
 ExtFree(e) ==
-  /\ Env /\ e \in ext
+  /\ Env /\ "ExtFree" \in Ops /\ e \in ext
   /\ ext' = ext \ {e}
   /\ Emit(<<[k |-> "ext_free", tp |-> e.tp, host |-> e.host, port |-> e.port]>>)
   /\ dirty' = TRUE /\ nops' = nops + 1
   /\ UNCHANGED <<optmode, optserver, psrun, order, objs, open, nsid, eph, tasks, released, alone>>
 \* ServerInstance.make / start / stop called directly (the module docstring's example)
 Make(s) ==
-  /\ Env /\ P[s].res = "ok" /\ (IF alone = 0 THEN TRUE ELSE objs[alone].socks = <<>>)
+  /\ Env /\ "Make" \in Ops /\ P[s].res = "ok" /\ (IF alone = 0 THEN TRUE ELSE objs[alone].socks = <<>>)
   /\ objs' = Append(objs, [spec |-> s, socks |-> <<>>, exc |-> "", hint |-> FALSE])
   /\ alone' = Len(objs) + 1
   /\ Emit(<<[k |-> "op", op |-> "make", spec |-> s], [k |-> "ret", err |-> "", gen |-> Len(objs) + 1]>>)
   /\ dirty' = TRUE /\ nops' = nops + 1
   /\ UNCHANGED <<optmode, optserver, psrun, order, open, ext, nsid, eph, tasks, released>>
 IStart ==
-  /\ Env /\ alone # 0 /\ objs[alone].socks = <<>>
+  /\ Env /\ "IStart" \in Ops /\ alone # 0 /\ objs[alone].socks = <<>>
   /\ LET r == DoStart(St, alone) IN
      /\ objs' = [objs EXCEPT ![alone] = r.obj]
      /\ Apply(r.st)
@@ -333,7 +335,7 @@ IStart ==
   /\ dirty' = TRUE /\ nops' = nops + 1
   /\ UNCHANGED <<optmode, optserver, psrun, order, tasks, released, alone>>
 IStop ==
-  /\ Env /\ alone # 0 /\ objs[alone].socks # <<>>
+  /\ Env /\ "IStop" \in Ops /\ alone # 0 /\ objs[alone].socks # <<>>
   /\ LET st2 == CloseAll(St, objs[alone].socks) IN
      /\ objs' = [objs EXCEPT ![alone].socks = <<>>, ![alone].exc = ""]
      /\ Apply(st2)
